@@ -134,7 +134,7 @@ def build_harness(name, variant="asan", include_c=(), extra_sources=(), extra_fl
     if os.path.exists(out):
         return out
     os.makedirs(os.path.dirname(out), exist_ok=True)
-    for old in glob.glob(os.path.join(BUILD, "bin", vname + "-*")):
+    for old in glob.glob(os.path.join(BUILD, "bin", vname + "-*")):   # older binaries and their link maps
         try:
             os.remove(old)
         except OSError:
@@ -142,7 +142,7 @@ def build_harness(name, variant="asan", include_c=(), extra_sources=(), extra_fl
     link_objs = [p for s, p in objs.items() if s not in include_c]
     cmd = ([compiler(variant)] + cflags(variant) + ["-I" + os.path.join(REPO, "hwloc"), "-I" + HARNESS,
            "-I" + os.path.join(REPO, "utils", "hwloc")] + list(extra_flags) +
-           [src] + [os.path.join(HARNESS, s) for s in extra_sources] + link_objs + LINK_LIBS + ["-o", out])
+           [src] + [os.path.join(HARNESS, s) for s in extra_sources] + link_objs + LINK_LIBS + ["-Wl,-Map=" + out + ".map", "-o", out])
     r = run(cmd)
     if r.returncode != 0:
         raise RuntimeError("harness build failed (%s):\n%s" % (name, r.stdout[-4000:]))
